@@ -717,7 +717,11 @@ pub fn run(args: &Args) -> Report {
             "gossipnet" => {
                 // the debug-page scenario (panic output is shown in a replay)
                 std::env::set_var("VERIF_SHOW_PANICS", "1");
-                let _ = super::gossipnet::report_debug_page(&mut rep, args.seed);
+                if rp["config"]["scenario"] == "accept_loop" {
+                    let _ = super::gossipnet::report_accept_loop(&mut rep, args.seed);
+                } else {
+                    let _ = super::gossipnet::report_debug_page(&mut rep, args.seed);
+                }
                 return rep;
             }
             "c10-control-flood" => {
@@ -771,6 +775,8 @@ pub fn run(args: &Args) -> Report {
     stg.merge(sem);
     // (c5) what the node renders from absurd announcements: the real debug page over loop-back TCP
     let page_cov = super::gossipnet::report_debug_page(&mut rep, args.seed);
+    // (b2) the node's own accept loop against raw TCP peers
+    let accept_cov = super::gossipnet::report_accept_loop(&mut rep, args.seed);
     let unexpected_plaintext = stg.viol.keys().any(|k| k.contains("UNEXPECTED"));
     let _ = unexpected_plaintext;
     let (dc, dok, derr) = (dec.cases, dec.ok, dec.err);
@@ -791,6 +797,7 @@ pub fn run(args: &Args) -> Report {
         "stage_cases": sc, "stage_ok": sok, "stage_refused": serr,
         "mux_header_state_items": mux_items,
         "debug_page": page_cov,
+        "accept_loop": accept_cov,
         "semantic_cases": semc, "semantic_processed": semok, "semantic_refused": semerr,
         "max_allocation_bytes_per_case": ma,
         "max_decoder_allocation_ratio": mr,
